@@ -389,7 +389,8 @@ def run(ctx):
         episodes.extend(part)
     ctx.replayed = len(jobs)
     ctx.sample({"behaviour_from_TLC": jobs[0][0], "layout": _layout_of(jobs[0][1]), "formalism": jobs[0][2]})
-    ctx.sample({"instance_enumerated_by_TLC": insts[len(insts) // 2], "recorded": [{k: v for k, v in r.items() if k != "_ctx"} for r in episodes[nsimjobs][:4]]})
+    shown = next((ep for ep in episodes[nsimjobs:] if len(set(ep[0]["filled"]) & set(SECONDARY)) >= 2 and ep[0]["mk"]["nf"] > 0), episodes[nsimjobs])
+    ctx.sample({"enumerated_instance_as_recorded": [{k: v for k, v in r.items() if k != "_ctx"} for r in shown[:4]]})
     rejects, drift = validate(ctx, episodes, "C15")
     ctx.note(f"{len(jobs)} behaviours replayed on real inversions ({nsimjobs} simulated by TLC, {len(jobs) - nsimjobs - nsys} enumerated "
              f"(subset, make-up) instances, {nsys} systematic); model drift records (cache set / slot contents differ, informational): {drift}")
